@@ -69,8 +69,9 @@ class CsrEvMonWorld(World):
         srcs = [event.Source(trigger=tr, path=(f"s{i}",)) for i, tr in enumerate(config["srcs"])]
         for s in srcs:
             em.add(s)
-        dut = hw.construct(csr.EventMonitor, em, trigger=config["trigger"], data_width=dw,
-                           alignment=config["al"])
+        dut = hw.must_accept("C14", f"csr.EventMonitor({n} events, data_width={dw}, alignment="
+                             f"{config['al']})", csr.EventMonitor, em, trigger=config["trigger"],
+                             data_width=dw, alignment=config["al"])
         top = hw.make_top(dut)
         attach = config["attach"]
         base = 0
